@@ -39,12 +39,17 @@ func (c *Cmt) prepareOn(n *Node, h int64, t time.Time, proposer []byte, eci abci
 		NextValidatorsHash: c.NextVals.Hash(), ProposerAddress: proposer}
 	var resp *abci.ResponsePrepareProposal
 	var err error
+	// (read under the model's lock: on the race build the handler of an abandoned call may still run)
+	n.EL.Chain.mu.Lock()
 	trouble, rejects, env := n.EL.Trouble, len(n.EL.GoatRejects), n.EL.EnvTrouble
+	n.EL.Chain.mu.Unlock()
 	out := n.run("prepare", func() { resp, err = n.App.PrepareProposal(req) })
+	n.EL.Chain.mu.Lock()
 	n.lastFaulted = anyUsed(faults) || n.EL.Trouble != trouble
 	n.lastInjected = anyUsed(faults)
 	n.lastEnvTrouble = n.EL.EnvTrouble != env
-	n.lastGoatRejects = n.EL.GoatRejects[rejects:]
+	n.lastGoatRejects = append([]string{}, n.EL.GoatRejects[rejects:]...)
+	n.EL.Chain.mu.Unlock()
 	n.EL.arm(nil)
 	if resp == nil {
 		return nil, out, err
@@ -329,10 +334,13 @@ func (c *Cmt) produceBlock(args *BlockArgs) bool {
 			w.violate("C19", "finalize-fails", finalizeShape(out, err), "height %d node %d: FinalizeBlock failed without an engine fault: panic=%v err=%v\n%s", h, n.ID, out.Panic, err, out.Stack)
 			// "the begin-/end-of-block logic never fails" is also part of C13 (locking) and C16 (relayer)
 			txt := strings.ToLower(fmt.Sprint(out.Panic, err))
+			// (a panic says little in its text; its stack names the module whose begin-/end-of-block code failed)
+			inRelayer := strings.Contains(out.Stack, "/x/relayer/keeper.Keeper.EndBlocker") || strings.Contains(out.Stack, "/x/relayer/keeper.Keeper.BeginBlocker")
+			inLocking := strings.Contains(out.Stack, "/x/locking/keeper.Keeper.EndBlocker") || strings.Contains(out.Stack, "/x/locking/keeper.Keeper.BeginBlocker")
 			switch {
-			case strings.Contains(txt, "voter") || strings.Contains(txt, "electproposer") || strings.Contains(txt, "relayer"):
+			case inRelayer || (!inLocking && (strings.Contains(txt, "voter") || strings.Contains(txt, "electproposer") || strings.Contains(txt, "relayer"))):
 				w.violate("C16", "end-of-block-fails", finalizeShape(out, err), "height %d node %d: the relayer end-of-block logic failed: panic=%v err=%v", h, n.ID, out.Panic, err)
-			case strings.Contains(txt, "validator") || strings.Contains(txt, "power") || strings.Contains(txt, "locking") || strings.Contains(txt, "unlock"):
+			case inLocking || strings.Contains(txt, "validator") || strings.Contains(txt, "power") || strings.Contains(txt, "locking") || strings.Contains(txt, "unlock"):
 				w.violate("C13", "begin-or-end-of-block-fails", finalizeShape(out, err), "height %d node %d: the locking begin-/end-of-block logic failed: panic=%v err=%v", h, n.ID, out.Panic, err)
 			}
 			n.crash("FinalizeBlock failed")
